@@ -177,6 +177,35 @@ InitFns  == \E f \in FnTable, S \in ScopeSets :
                /\ \E k \in 1..(IF Len(f.sigs) = 0 THEN 1 ELSE Len(f.sigs)) :
                     cell = [kind |-> "fn", name |-> f.name, sig |-> (IF Len(f.sigs) = 0 THEN << >> ELSE f.sigs[k]),
                             ret |-> f.ret, extra |-> f.extra, scopes |-> SeqOf(S), allowed |-> FnAllowed(f, S)]
+\* signatures: a call is allowed iff its argument list has the length and the types of a declared signature; a
+\* signature ending in STRING_LIST takes one or more STRINGs there.  Cells: every argument count from 0 to one more
+\* than the longest declared signature, and every declared signature with one argument replaced by a value of a
+\* type no parameter type converts from (an ACL name; an INTEGER where the parameter is an ACL).
+Variadic(sig) == Len(sig) > 0 /\ sig[Len(sig)] = "STRING_LIST"
+ArityOK(f, n) == \/ Len(f.sigs) = 0 /\ n = 0
+                 \/ \E k \in 1..Len(f.sigs) : IF Variadic(f.sigs[k]) THEN n >= Len(f.sigs[k]) ELSE n = Len(f.sigs[k])
+MaxArity(f) == IF Len(f.sigs) = 0 THEN 0
+               ELSE LET L == {Len(f.sigs[k]) : k \in 1..Len(f.sigs)} IN CHOOSE m \in L : \A x \in L : m >= x
+\* the argument types to call with for a count n: a declared signature of that length if there is one, else the
+\* first signature cut or padded with STRINGs
+ArgsFor(f, n) ==
+  LET fits == {k \in 1..Len(f.sigs) : Len(f.sigs[k]) = n}
+      base == IF fits # {} THEN f.sigs[CHOOSE k \in fits : \A j \in fits : k <= j]
+              ELSE IF Len(f.sigs) = 0 THEN << >> ELSE f.sigs[1]
+  IN [i \in 1..n |-> IF i <= Len(base) /\ base[i] # "STRING_LIST" THEN base[i] ELSE "STRING"]
+Witness(t) == IF t = "ACL" THEN "INTEGER" ELSE "ACL"
+HomeScope(f) == LET I == {i \in 1..Len(ScopeSeq) : ScopeSeq[i] \in f.on} IN ScopeSeq[CHOOSE i \in I : \A j \in I : i <= j]
+InitSigs ==
+  \E f \in {g \in FnTable : g.on \cap Scopes # {}} :
+     \/ \E n \in 0..(MaxArity(f) + 1) :
+          cell = [kind |-> "fnsig", why |-> "arity", name |-> f.name, sig |-> ArgsFor(f, n), ret |-> f.ret, extra |-> f.extra,
+                  scopes |-> << HomeScope(f) >>, allowed |-> ArityOK(f, n)]
+     \/ \E k \in 1..Len(f.sigs) : \E p \in 1..Len(f.sigs[k]) :
+          cell = [kind |-> "fnsig", why |-> "argtype", name |-> f.name,
+                  sig |-> [i \in 1..Len(f.sigs[k]) |-> IF i = p THEN Witness(f.sigs[k][i])
+                                                        ELSE IF f.sigs[k][i] = "STRING_LIST" THEN "STRING" ELSE f.sigs[k][i]],
+                  ret |-> f.ret, extra |-> f.extra, scopes |-> << HomeScope(f) >>, allowed |-> FALSE]
+
 InitStmts == \/ \E s \in Stmts, S \in ScopeSets :
                   cell = [kind |-> "stmt", stmt |-> s, action |-> "", scopes |-> SeqOf(S), allowed |-> StmtAllowed(s, S)]
              \/ \E a \in Actions, S \in ScopeSets :
@@ -187,7 +216,8 @@ Init ==
     [] Mode = "vars"  -> InitVars
     [] Mode = "fns"   -> InitFns
     [] Mode = "stmts" -> InitStmts
-    [] Mode = "all"   -> InitOps \/ InitVars \/ InitFns \/ InitStmts
+    [] Mode = "sigs"  -> InitSigs
+    [] Mode = "all"   -> InitOps \/ InitVars \/ InitFns \/ InitSigs \/ InitStmts
 
 Next == FALSE /\ UNCHANGED vars
 Spec == Init /\ [][Next]_vars
